@@ -497,4 +497,49 @@ Proof.
   apply adj_pair_sym; [apply vconj_pweights_const; assumption | assumption |].
   apply ptinner_pair; assumption.
 Qed.
+
+(* ---------------- leaves whose returned adjoint is again a good leaf ---------------- *)
+Lemma rect_conjT n (M : list vec) : rect n M -> rect (length M) (conjT n M).
+Proof.
+  intros HM. unfold conjT.
+  assert (Hr : rect n (map vconj M)) by (clear -HM; induction HM; constructor; [rewrite vconj_len; assumption | assumption]).
+  rewrite <- (map_length vconj M). generalize (map vconj M) Hr. clear. intros M HM.
+  induction HM as [|r M Hr HM IH]; cbn [transpose length].
+  - induction n; constructor; [reflexivity | assumption].
+  - assert (Hl : length (transpose n M) = length r) by (rewrite transpose_len; [congruence | exact HM]).
+    revert Hl IH. generalize (transpose n M). clear. intros cols. revert cols.
+    induction r as [|a r IHr]; intros [|c cols] Hl IH; cbn in Hl; try discriminate; constructor.
+    + cbn [length]. f_equal. exact (Forall_inv IH).
+    + apply IHr; [lia | exact (Forall_inv_tail IH)].
+Qed.
+Lemma leaf_good_scaling (w : vec) s : leaf_good (LScaling w s).
+Proof. split; [apply leaf_ok_scaling | cbn; apply leaf_ok_scaling]. Qed.
+Lemma leaf_good_multiply (w v : vec) : length v = length w -> leaf_good (LMultiply w v).
+Proof. intros Hv; split; [apply leaf_ok_multiply; assumption | cbn; apply leaf_ok_multiply; rewrite vconj_len; assumption]. Qed.
+Lemma leaf_good_zero (wd wr : vec) : leaf_good (LZero wd wr).
+Proof. split; [apply leaf_ok_zero | cbn; apply leaf_ok_zero]. Qed.
+Lemma leaf_good_inner (w v : vec) : length v = length w -> vconj w = w -> leaf_good (LInner w v).
+Proof. intros Hv Hw; split; [apply leaf_ok_inner; assumption | cbn; apply leaf_ok_mulfield; assumption]. Qed.
+Lemma leaf_good_mulfield (w v : vec) : length v = length w -> vconj w = w -> leaf_good (LMulField w v).
+Proof. intros Hv Hw; split; [apply leaf_ok_mulfield; assumption | cbn; apply leaf_ok_inner; assumption]. Qed.
+Lemma leaf_good_matrix_const c n m (M : list vec) : rect n M -> length M = m ->
+  leaf_good (LMatrix (repeat c n) (repeat c m) M).
+Proof.
+  intros HM Hm; split; [apply leaf_ok_matrix_const; assumption|]. cbn [leaf_adjoint wf]. rewrite repeat_length.
+  apply leaf_ok_matrix_const.
+  - subst m. apply rect_conjT; assumption.
+  - unfold conjT. apply transpose_len. clear -HM. induction HM; constructor; [rewrite vconj_len; assumption | assumption].
+Qed.
+Lemma leaf_good_sampling cv n idx integrate : Forall (fun i => (i < n)%nat) idx ->
+  nconj cv = cv -> cv <> nzero -> leaf_good (LSampling (repeat cv n) idx integrate cv).
+Proof. intros; split; [apply leaf_ok_sampling; assumption | cbn; apply leaf_ok_wsum; assumption]. Qed.
+Lemma leaf_good_wsum cv n idx dirac : Forall (fun i => (i < n)%nat) idx ->
+  nconj cv = cv -> cv <> nzero -> leaf_good (LWSum (repeat cv n) idx dirac cv).
+Proof. intros; split; [apply leaf_ok_wsum; assumption | cbn; apply leaf_ok_sampling; assumption]. Qed.
+Lemma leaf_good_flatten cv n perm : Forall (fun i => (i < n)%nat) perm ->
+  nconj cv = cv -> cv <> nzero -> leaf_good (LFlatten (repeat cv n) perm cv).
+Proof. intros; split; [apply leaf_ok_flatten; assumption | cbn; apply leaf_ok_unflatten; assumption]. Qed.
+Lemma leaf_good_unflatten cv n perm : Forall (fun i => (i < n)%nat) perm ->
+  nconj cv = cv -> cv <> nzero -> leaf_good (LUnflatten (repeat cv n) perm cv).
+Proof. intros; split; [apply leaf_ok_unflatten; assumption | cbn; apply leaf_ok_flatten; assumption]. Qed.
 End Leaf.
